@@ -67,7 +67,11 @@ def load_known_findings():
 
 def sig_matches(known_sig: dict, sig: dict) -> bool:
     """A known finding matches a detected violation when every key of its signature is equal."""
-    return all(sig.get(k) == v for k, v in known_sig.items())
+    def eq(k, v):
+        if isinstance(v, list):          # a list in a known signature means "one of"
+            return sig.get(k) in v
+        return sig.get(k) == v
+    return all(eq(k, v) for k, v in known_sig.items())
 
 
 def write_replay(pid: str, content: dict) -> Path:
